@@ -6,6 +6,16 @@ open TIV.Prog
 /-- in strict mode only `_render_` calls fail -/
 def injS (s : Bool) (t : Target) (e : Exc) : Prop := inj t e ∧ (s = true → t = .render ∨ t = .write)
 
+/-- the faults under which `draw` promises to have finalized its data itself: any `_render_` call, any
+    write of the drawing proper. Not: padding resolution / size validation (they happen inside
+    `_init_render_(finalize=False)`, before `draw`'s `try` — the data is then left to `__del__`), nor
+    the `write("\n")` of `draw`'s own clean-up, which precedes `finalize()` in the `finally`. -/
+def injDraw (t : Target) (e : Exc) : Prop := inj t e ∧ (t = .render ∨ t = .write)
+
+@[simp] theorem noHook_injDraw : NoHook injDraw := fun _ h => h.1
+
+@[simp] theorem noHook_injS (s : Bool) : NoHook (injS s) := fun _ h => h.1
+
 /-- what no operation on existing iterators changes -/
 structure Fr (w0 w : World) : Prop where
   nObjs : w.nObjs = w0.nObjs
@@ -115,7 +125,7 @@ theorem ite_iff_and {c : Prop} [Decidable c] {A B : Prop} : (if c then A else B)
 macro "wpgo" : tactic =>
   `(tactic| repeat' (first
       | simp only [wp, Prog.do, sem_apply, sem_fapply, sem_target, target, reduceCtorEq, false_imp_iff,
-          implies_true, true_and, and_true, Option.some.injEq, forall_eq', wp_closeP, wp_finalizeP, wp_ite,
+          implies_true, true_and, and_true, Option.some.injEq, forall_eq', wp_closeP, wp_finalizeP, noHook_injS, noHook_injDraw, noHook_inj, wp_ite,
           ite_iff_and, true_imp_iff, not_true_eq_false, not_false_eq_true, Bool.false_eq_true, if_true, if_false]
       | dsimp only
       | split
@@ -223,6 +233,9 @@ theorem renderP_spec {s w} (b : Bool) (h : G s NoX w) :
     apply fin_end
     · exact G_render _ h1 hx.2.1
     · rwa [Att_render]
+
+theorem strP_spec {s w} (b : Bool) (h : G s NoX w) :
+    wp sem (injS s) strP b (fun _ w' => G s NoX w') (fun _ _ w' => G s NoX w') w := renderP_spec b h
 
 theorem iterNewP_spec {s w} (loops : Int) (c : CacheArg) (b : Bool) (h : G s NoX w) :
     wp sem (injS s) (iterNewP loops c) b (fun _ w' => G s NoX w') (fun _ _ w' => G s NoX w') w := by
@@ -464,12 +477,6 @@ end
 
 /-! ### promptness of `draw` -/
 
-/-- the faults under which `draw` promises to have finalized its data itself: any `_render_` call, any
-    write of the drawing proper. Not: padding resolution / size validation (they happen inside
-    `_init_render_(finalize=False)`, before `draw`'s `try` — the data is then left to `__del__`), nor
-    the `write("\n")` of `draw`'s own clean-up, which precedes `finalize()` in the `finally`. -/
-def injDraw (t : Target) (e : Exc) : Prop := inj t e ∧ (t = .render ∨ t = .write)
-
 /-- object `d` has been finalized, once, by library code, not by `__del__`, and was never used after -/
 structure Prompt (d : Nat) (w : World) : Prop where
   finalized : (w.objs d).finalized = true
@@ -550,6 +557,7 @@ theorem step_inv (s : Bool) (w : World) (op : Op) (f : Flt) (hadm : Admissible (
     | initRender it fin cs asc rp =>
       exact post_G (wp_sound sem (injS false) _ f _ _ w (by simpa [injOp, isDirect] using hadm)
         (initRenderOp_spec it fin cs asc rp _ h.1))
+    | str => exact post_G (wp_sound sem (injS s) _ f _ _ w (by simpa [injOp, isDirect] using hadm) (strP_spec _ h.1))
     | render => exact post_G (wp_sound sem (injS s) _ f _ _ w (by simpa [injOp, isDirect] using hadm) (renderP_spec _ h.1))
     | draw a cs l c b => exact post_G (wp_sound sem (injS s) _ f _ _ w (by simpa [injOp, isDirect] using hadm) (drawP_spec a cs l c b _ h.1))
     | iterNew l c => exact post_G (wp_sound sem (injS s) _ f _ _ w (by simpa [injOp, isDirect] using hadm) (iterNewP_spec l c _ h.1))
